@@ -53,10 +53,15 @@ PARAMS = ["CL", "VC"]
 COVS = ["WGT", "APGR", "FA1", "FA2"]
 EFFECTS = ["lin", "cat", "cat2", "piece_lin", "exp", "pow"]
 FORMS = ["add", "prop", "exp", "log", "re_log"]
+# bases of the residual-error modifiers: name -> epsilons of the model in model order
+RUV_BASES = ["pheno", "add", "comb", "prop", "twodv", "twodv-comb", "comb-upper"]
+RUV_EPS = {"pheno": ["EPS_1"], "add": ["epsilon_a"], "comb": ["epsilon_p", "epsilon_a"], "prop": ["epsilon_p"],
+           "twodv": ["EPS_1", "epsilon_p"], "twodv-comb": ["epsilon_p", "epsilon_a", "epsilon_p1"],
+           "comb-upper": ["EPS_P", "EPS_A"]}
 
 
 def budget(tier):
-    return int(os.environ.get("VERIF_BUDGET", 0)) or {"quick": 420, "thorough": 6000}[tier]
+    return int(os.environ.get("VERIF_BUDGET", 0)) or {"quick": 600, "thorough": 6000}[tier]
 
 
 def translators():
@@ -76,26 +81,36 @@ def _ids(rng):
 def gen_case(rng: random.Random):
     r = rng.random()
     c = {"ids": _ids(rng), "seed": rng.randrange(1 << 30)}
-    if r < 0.36:
+    if r < 0.30:
         c.update(kind="coveff", param=rng.choice(PARAMS), cov=rng.choice(COVS), effect=rng.choice(EFFECTS),
                  op=rng.choice(["*", "*", "+"]), first=None)
         if rng.random() < 0.3:
             c["first"] = [rng.choice(COVS), rng.choice(EFFECTS), rng.choice(["*", "+"])]
-    elif r < 0.52:
+    elif r < 0.44:
         c.update(kind="iiv", param=rng.choice(["CL", "VC", "S1", "V", "TVCL"]), form=rng.choice(FORMS),
                  op=rng.choice(["*", "+"]))
-    elif r < 0.62:
+    elif r < 0.54:
         ps = rng.choice([["CL"], ["VC"], ["CL", "VC"], ["VC", "CL"], None])
         c.update(kind="iov", occ=rng.choice(["FA1", "FA2", "APGR"]), params=ps,
-                 dist=rng.choice(["disjoint", "joint", "same-as-iiv"]))
-    elif r < 0.70:
+                 dist=rng.choice(["disjoint", "joint", "same-as-iiv"]), second=rng.choice([None, None, "FA1", "FA2", "APGR"]))
+    elif r < 0.61:
         c.update(kind="etatrans", trans=rng.choice(["boxcox", "tdist", "johndraper"]),
                  etas=rng.choice([["ETA_CL"], ["ETA_VC"], ["ETA_CL", "ETA_VC"], ["ETA_VC", "ETA_CL"], None]))
-    elif r < 0.90:
+    elif r < 0.63:
+        c.update(kind="errordv", setter=rng.choice(["additive", "proportional", "combined"]), how=rng.choice(["dvid", "name"]),
+                 zp=rng.random() < 0.5)
+    elif r < 0.72:
         c.update(kind="error", base=rng.choice(["pheno", "noerr", "add", "comb", "prop"]),
-                 setter=rng.choice(["additive", "proportional", "combined", "power", "weighted", "dtbs",
-                                    "time_varying", "iiv_on_ruv"]),
-                 log=rng.random() < 0.35, zp=rng.random() < 0.6, cutoff=rng.choice([1, 2.5, 24]))
+                 setter=rng.choice(["additive", "proportional", "combined", "dtbs"]),
+                 log=rng.random() < 0.35, zp=rng.random() < 0.6, cutoff=1)
+    elif r < 0.90:
+        base = rng.choice(RUV_BASES)
+        eps = RUV_EPS[base]
+        sel = rng.choice([None, None, [rng.choice(eps)], list(eps), list(reversed(eps))])
+        c.update(kind="ruvmod", base=base, fn=rng.choice(["iiv_on_ruv", "iiv_on_ruv", "power", "time_varying", "weighted"]),
+                 dv=rng.choice([None, None, "name", "dvid", "name2", "dvid2"]), list_of_eps=sel,
+                 same_eta=rng.random() < 0.5, eta_names=rng.random() < 0.2, zp=rng.random() < 0.3,
+                 lower_limit=rng.choice([0.01, None]), cutoff=rng.choice([1, 2.5, 24]))
     elif r < 0.95:
         c.update(kind="allometry", var=rng.choice(["WGT", "APGR"]), ref=rng.choice([70, 7, 3, 2.5, 0.5]),
                  params=rng.choice([None, ["CL"], ["VC"], ["CL", "VC"]]), nocov=rng.random() < 0.7)
@@ -126,6 +141,20 @@ def corpus_cases():
         # setter is a no-op on a model that already has the error model, even when another data_trans is requested
         {"kind": "error", "ids": None, "seed": 9, "base": "pheno", "setter": "proportional", "log": True, "zp": True, "cutoff": 1},
         {"kind": "error", "ids": None, "seed": 10, "base": "noerr", "setter": "combined", "log": False, "zp": True, "cutoff": 1},
+        # set_iiv_on_ruv with dv= on a DV with two epsilons: every epsilon must be scaled
+        {"kind": "ruvmod", "ids": None, "seed": 18, "base": "comb", "fn": "iiv_on_ruv", "dv": "name", "list_of_eps": None,
+         "same_eta": True, "eta_names": False, "zp": False, "lower_limit": 0.01, "cutoff": 1},
+        {"kind": "ruvmod", "ids": None, "seed": 19, "base": "twodv-comb", "fn": "iiv_on_ruv", "dv": "dvid2", "list_of_eps": None,
+         "same_eta": False, "eta_names": False, "zp": False, "lower_limit": 0.01, "cutoff": 1},
+        # list_of_eps with a lower-case epsilon name is silently ignored
+        {"kind": "ruvmod", "ids": None, "seed": 20, "base": "comb", "fn": "iiv_on_ruv", "dv": None, "list_of_eps": ["epsilon_a"],
+         "same_eta": True, "eta_names": False, "zp": False, "lower_limit": 0.01, "cutoff": 1},
+        {"kind": "ruvmod", "ids": None, "seed": 21, "base": "comb-upper", "fn": "power", "dv": "name", "list_of_eps": ["EPS_A"],
+         "same_eta": True, "eta_names": False, "zp": False, "lower_limit": None, "cutoff": 1},
+        {"kind": "ruvmod", "ids": None, "seed": 22, "base": "twodv", "fn": "time_varying", "dv": "dvid2", "list_of_eps": None,
+         "same_eta": True, "eta_names": False, "zp": False, "lower_limit": 0.01, "cutoff": 2.5},
+        {"kind": "errordv", "ids": None, "seed": 23, "setter": "combined", "how": "dvid", "zp": True},
+        {"kind": "errordv", "ids": None, "seed": 24, "setter": "additive", "how": "name", "zp": True},
         {"kind": "allometry", "ids": None, "seed": 11, "var": "WGT", "ref": 70, "params": None, "nocov": True},
         {"kind": "transit", "ids": None, "seed": 12, "base": "pheno", "ns": [2, 4, 3], "keep_depot": True},
         {"kind": "transit", "ids": None, "seed": 13, "base": "fo", "ns": [3, 1], "keep_depot": True},
@@ -440,6 +469,32 @@ def run_iiv(case, drv, rng, k, mon, tags):
     return True
 
 
+def iov_shift_check(mon, rng, m_old, m_new, occ, cats, etas, label):
+    # ETA_IOV_<i>_<k>: sort eta by eta, occasion by occasion (joint distributions list them occasion by occasion)
+    new_etas = sorted([n for n in m_new.random_variables.names if n not in m_old.random_variables.names], key=U.natural_key)
+    ncat = len(cats)
+    if len(new_etas) != ncat * len(etas):
+        mon.append({"cls": "iov-eta-count", "what": f"{label}: {len(new_etas)} new etas for {len(etas)} etas x {ncat} occasions"})
+        return
+    for P in PARAMS:
+        p_old, p_new = full(m_old, P), full(m_new, P)
+        for kidx in rng.sample(range(ncat), min(2, ncat)):
+            pt = U.gen_point(rng, [p_old, p_new], {occ: sympy.Integer(cats[kidx])}, lo=1, hi=9)
+            for n in new_etas:
+                pt[S(n)] = Rational(rng.choice([-3, -2, -1, 1, 2, 3]), rng.randint(2, 5))
+            for e in ["ETA_CL", "ETA_VC"]:
+                pt[S(e)] = Rational(rng.choice([-2, -1, 1, 2]), 3)
+            po = dict(pt)
+            # new etas are created eta by eta, occasion by occasion
+            for i, e in enumerate(etas):
+                po[S(e)] = pt[S(e)] + pt[S(new_etas[i * ncat + kidx])]
+            vn, vo = U.value_at(p_new, pt), U.value_at(p_old, po)
+            if not U.same_value(vn, vo, TOL):
+                mon.append({"cls": "iov-shape", "what": f"{label}: {P} at {occ}={cats[kidx]} is {vn}; documented: the old {P} with each selected "
+                            f"eta plus its occasion eta = {vo}"})
+                return
+
+
 def run_iov(case, drv, rng, k, mon, tags):
     m = pheno(case["ids"])
     occ, params, dist = case["occ"], case["params"], case["dist"]
@@ -475,6 +530,30 @@ def run_iov(case, drv, rng, k, mon, tags):
             if not check_equal(mon, "iov-not-neutral-at-eta-zero", f"{P} with IOV on {occ} at all IOV etas 0, {occ}={cv} vs {P} before",
                                p_new, p_old, rng, fx, npoints=1):
                 break
+    # documented shift at non-zero IOV etas: on occasion k the parameter is the old one with eta + ETA_IOV_i_k
+    # (every selected eta, every occasion), and the etas that were not selected are untouched
+    iov_shift_check(mon, rng, m, m2, occ, cats, etas, f"add_iov({occ},{params},{dist})")
+    # a second occasion column on top of the first
+    sec = case.get("second")
+    if sec and sec != occ:
+        rows2 = U.records(m2.dataset, ["ID", sec])
+        cats2 = sorted({int(r[sec]) for r in rows2})
+        try:
+            m2b = pm.add_iov(m2, sec, [f"ETA_{p}" for p in (params or ["CL", "VC"])], distribution=dist)
+            tags.append("iov:second-occasion-column")
+            iov_shift_check(mon, rng, m2, m2b, sec, cats2, etas, f"second add_iov({sec}) after add_iov({occ})")
+            m3b = pm.remove_iov(m2b)
+            for P in PARAMS:
+                check_equal(mon, "iov-remove-not-restoring", f"{P} after remove_iov(two add_iov) vs {P} before", full(m3b, P),
+                            full(m, P), rng, {occ: sympy.Integer(rng.choice(cats)), sec: sympy.Integer(rng.choice(cats2))}, npoints=1)
+        except ValueError as e:
+            if len(cats2) == 1 and "Only one value" in str(e):
+                tags.append("refused:one-occasion")
+            else:
+                mon.append({"cls": "iov-internal-error", "what": f"second add_iov({sec},{params},{dist}) raised ValueError: {e}"})
+        except Exception as e:
+            mon.append({"cls": "iov-internal-error", "what": f"second add_iov({sec},{params},{dist}) raised {type(e).__name__}: "
+                        + str(e).split(chr(10))[0]})
     try:
         m3 = pm.remove_iov(m2)
         for P in PARAMS:
@@ -756,6 +835,305 @@ def run_error(case, drv, rng, k, mon, tags):
     return changed
 
 
+def ruv_base(name, ids):
+    if name in ("pheno", "add", "comb", "prop"):
+        return error_base(name, ids)
+    if name == "twodv":
+        return pm.set_direct_effect(pheno(ids), "linear")
+    if name == "twodv-comb":
+        # (set_combined_error_model(..., dv=2) raises, see run_errordv) two epsilons on the first DV, one on the second
+        return pm.set_direct_effect(error_base("comb", ids), "linear")
+    if name == "comb-upper":
+        return pm.rename_symbols(error_base("comb", ids), {"epsilon_p": "EPS_P", "epsilon_a": "EPS_A"})
+    raise AssertionError(name)
+
+
+def _stmt_expr(model, sym):
+    st = model.statements.find_assignment(str(sym))
+    return None if st is None else U.norm(st.expression)
+
+
+def _injections(src, dst):
+    import itertools
+    if len(src) > len(dst):
+        return []
+    return [dict(zip(src, p)) for p in itertools.permutations(dst, len(src))]
+
+
+def run_ruvmod(case, drv, rng, k, mon, tags):
+    """Modifiers of an existing residual error model with all their options.  Monitor: on the targeted DV every
+    selected epsilon carries the documented factor (checked at eta != 0, several epsilon values), the other DVs are
+    untouched when a DV is named, and the extension is neutral at eta = 0."""
+    import itertools
+    base, fn = case["base"], case["fn"]
+    m = ruv_base(base, case["ids"])
+    dvs = [(str(sym), int(i)) for sym, i in m.dependent_variables.items()]
+    eps_model = list(m.random_variables.epsilons.names)
+    which = case["dv"]
+    second = which in ("name2", "dvid2") and len(dvs) > 1
+    tname, tid = dvs[1] if second else dvs[0]
+    dvarg = None if which is None else (tname if which.startswith("name") else tid)
+    sel = case["list_of_eps"]
+    if sel is not None:
+        sel = [e for e in sel if e in eps_model] or None
+    selected = list(sel) if sel is not None else list(eps_model)
+    tags += [f"ruvmod:{fn}", f"ruvbase:{base}", f"dv:{which}", f"sel:{'all' if sel is None else len(sel)}"]
+    kw = {}
+    if dvarg is not None and fn != "weighted":
+        kw["dv"] = dvarg
+    if fn in ("iiv_on_ruv", "power") and sel is not None:
+        kw["list_of_eps"] = list(sel)
+    if fn == "iiv_on_ruv":
+        kw["same_eta"] = case["same_eta"]
+        tags.append(f"same_eta:{case['same_eta']}")
+        if case["eta_names"] and (not case["same_eta"] or len(selected) == 1):
+            kw["eta_names"] = [f"ETA_Q{i}" for i in range(1, len(selected) + 1)]
+    if fn == "power":
+        kw["lower_limit"] = case["lower_limit"]
+        kw["zero_protection"] = case["zp"]
+    if fn == "time_varying":
+        kw["cutoff"] = case["cutoff"]
+    call = {"iiv_on_ruv": pm.set_iiv_on_ruv, "power": pm.set_power_on_ruv, "time_varying": pm.set_time_varying_error_model,
+            "weighted": pm.set_weighted_error_model}[fn]
+    try:
+        m2 = call(m, **kw)
+    except Exception as e:
+        cls = f"ruv-{fn}-internal-error"
+        if sel is not None and any(e != e.upper() for e in sel):
+            cls = "ruv-list-of-eps-lowercase-name-ignored"
+        mon.append({"cls": cls, "what": f"{call.__name__}({kw}) on {base} raised {type(e).__name__}: " + str(e).split(chr(10))[0]})
+        return False
+    changed = m2.statements != m.statements
+    # list_of_eps entries are upper-cased before the lookup: lower-case names (as pharmpy's own setters create) are dropped
+    unresolvable = [e for e in selected if sel is not None and e != e.upper()]
+    y_old = {d: full(m, d, "after") for d, _ in dvs}
+    y_new = {d: full(m2, d, "after") for d, _ in dvs}
+    new_etas = [n for n in m2.random_variables.etas.names if n not in m.random_variables.names]
+    new_thetas = sorted([n for n in m2.parameters.names if n not in m.parameters.names
+                         and n not in m2.random_variables.parameter_names], key=U.natural_key)
+
+    def affected(d):
+        return [e for e in selected if S(e) in y_old[d].free_symbols]
+
+    def lower_cls(default):
+        return "ruv-list-of-eps-lowercase-name-ignored" if unresolvable else default
+
+    # ---------------------------------------------------------------- frame: other DVs when a DV is named
+    if dvarg is not None and fn != "weighted":
+        for d, _ in dvs:
+            if d != tname:
+                check_equal(mon, "ruv-other-dv-changed", f"{d} after {call.__name__}({kw}) (only {tname} was named) vs before",
+                            y_new[d], y_old[d], rng, npoints=2)
+    tgt_old, tgt_new = y_old[tname], y_new[tname]
+    aff = affected(tname)
+
+    if fn == "iiv_on_ruv":
+        want_n = 1 if case["same_eta"] else len(selected)
+        if len(new_etas) != want_n and not unresolvable:
+            mon.append({"cls": "ruv-iiv-on-ruv-eta-count", "what": f"set_iiv_on_ruv({kw}) on {base}: new etas {new_etas}, expected {want_n}"})
+        # K: the statement of the targeted DV (and of every DV when none is named)
+        if drv is not None and not unresolvable and len(new_etas) == want_n:
+            eta_of = {e: (new_etas[0] if case["same_eta"] else new_etas[i]) for i, e in enumerate(selected)}
+            for d, _ in dvs:
+                if dvarg is not None and d != tname:
+                    continue
+                so, sn = _stmt_expr(m, d), _stmt_expr(m2, d)
+                prs = [[e, eta_of[e]] for e in selected if dvarg is None or S(e) in so.free_symbols]
+                ans = drv.ask(["iivonruv", U.wire(so), prs])
+                cmp_expr(f"{d} of set_iiv_on_ruv({kw}) on {base}", ans, sn, rng, k)
+        # Mon: every selected epsilon of the DV is multiplied by exp(eta), at eta != 0
+        maps = ([{e: new_etas[0] for e in aff}] if case["same_eta"] and new_etas else _injections(aff, new_etas)) if aff else [{}]
+        ok_any = False
+        detail = ""
+        for mp in maps:
+            good = True
+            for _ in range(3):
+                pt = U.gen_point(rng, [tgt_old, tgt_new], lo=1, hi=9)
+                for n in new_etas:
+                    pt[S(n)] = Rational(rng.choice([-3, -2, -1, 1, 2, 3]), rng.randint(2, 4))
+                for e in eps_model:
+                    pt[S(e)] = Rational(rng.choice([-5, -3, -1, 1, 2, 4]), rng.randint(2, 7))
+                po = dict(pt)
+                for e, h in mp.items():
+                    po[S(e)] = pt[S(e)] * sympy.exp(pt[S(h)])
+                vn, vo = U.value_at(tgt_new, pt), U.value_at(tgt_old, po)
+                if not U.same_value(vn, vo, TOL):
+                    good = False
+                    detail = f"{vn} vs {vo} at eps/eta " + str({str(a): str(b) for a, b in pt.items() if str(a) in eps_model + new_etas})
+                    break
+            if good:
+                ok_any = True
+                break
+        if not ok_any:
+            mon.append({"cls": lower_cls("ruv-iiv-on-ruv-shape"), "what": f"set_iiv_on_ruv({kw}) on {base}: {tname} = {tgt_new} does not multiply "
+                        f"every selected epsilon {aff} of {tname} by exp(eta) ({detail})"})
+        check_equal(mon, "ruv-iiv-on-ruv-not-neutral-at-eta-zero", f"{tname} after set_iiv_on_ruv at eta 0 vs before", tgt_new, tgt_old, rng,
+                    {n: sympy.Integer(0) for n in new_etas}, npoints=2)
+        return changed
+
+    zero = {S(e): sympy.Integer(0) for e in eps_model}
+    f_old = tgt_old.xreplace(zero)
+
+    def coef(expr, e, pt):
+        p1 = dict(pt)
+        for e_ in eps_model:
+            p1[S(e_)] = sympy.Integer(1 if e_ == e else 0)
+        p0 = dict(pt)
+        p0.update(zero)
+        a, b = U.value_at(expr, p1), U.value_at(expr, p0)
+        return None if a is None or b is None else a - b
+
+    if fn == "power":
+        so = _stmt_expr(m, tname)
+        ipsym = so.xreplace(zero)
+        if drv is not None and not unresolvable and ipsym.is_Symbol and len(new_thetas) >= len(aff):
+            adj = m.statements.find_assignment("IPREDADJ") is not None and tname == dvs[0][0]
+            ip = "IPREDADJ" if adj else str(ipsym)
+            # thetas are created per selected epsilon, in order
+            th_of = {}
+            pool = list(new_thetas)
+            order = [e for e in selected if dvarg is None or sel is not None or S(e) in so.free_symbols]
+            for e in order:
+                if pool:
+                    th_of[e] = pool.pop(0)
+            tot = ipsym
+            for e in [x for x in eps_model if S(x) in so.free_symbols]:
+                if e in th_of and e in selected:
+                    tot = tot + U.from_wire(drv.ask(["power", adj, ip, th_of[e], e]))
+                else:
+                    tot = tot + (so - so.xreplace({S(e): 0})).expand()
+            ok, wit = U.same_expr(tot, _stmt_expr(m2, tname), rng)
+            if not ok:
+                k.append(f"set_power_on_ruv({kw}) on {base}: model {tot} code {_stmt_expr(m2, tname)} differ at {wit}")
+        ok_any = False
+        detail = ""
+        for mp in (_injections(aff, new_thetas) if aff else [{}]):
+            good = True
+            for _ in range(2):
+                pt = U.gen_point(rng, [tgt_old, tgt_new], lo=1, hi=9)
+                for th in new_thetas:
+                    pt[S(th)] = Rational(rng.randint(1, 5), 2)
+                f = U.value_at(f_old, pt)
+                if f is None or f == 0:
+                    continue
+                want = f
+                for e in [x for x in eps_model if S(x) in tgt_old.free_symbols]:
+                    c = coef(tgt_old, e, pt)
+                    ev_ = Rational(rng.choice([-5, -3, 1, 2, 4]), rng.randint(2, 7))
+                    pt[S(e)] = ev_
+                    if e in mp:
+                        c = f ** pt[S(mp[e])] if U.same_value(c, f, TOL) else c * f ** pt[S(mp[e])]
+                    want = want + c * ev_
+                vn = U.value_at(tgt_new, pt)
+                if not U.same_value(vn, want, TOL):
+                    good = False
+                    detail = f"{vn} vs documented {want}"
+                    break
+            if good:
+                ok_any = True
+                break
+        if not ok_any:
+            mon.append({"cls": lower_cls("ruv-power-shape"), "what": f"set_power_on_ruv({kw}) on {base}: {tname} = {tgt_new} does not give every "
+                        f"selected epsilon {aff} the factor f**theta ({detail})"})
+        return changed
+
+    if fn == "time_varying":
+        cut = U.rat(case["cutoff"])
+        tv = [n for n in new_thetas]
+        so = _stmt_expr(m, tname)
+        if drv is not None and tv:
+            ans = drv.ask(["timevarying", U.wire(so), [e for e in eps_model], tv[0], ["lt", "TIME", U.wire_num(case["cutoff"])]])
+            cmp_expr(f"{tname} of set_time_varying_error_model({kw}) on {base}", ans, _stmt_expr(m2, tname), rng, k)
+        for tval, scaled in ((cut - 1, True), (cut + 1, False), (cut, False), (cut - Rational(1, 7), True)):
+            pt = U.gen_point(rng, [tgt_new, tgt_old], {"TIME": tval}, lo=1, hi=9)
+            for e in eps_model:
+                pt[S(e)] = Rational(rng.choice([-5, -2, 1, 3]), 3)
+            th = Rational(rng.randint(2, 9), 7)
+            if tv:
+                pt[S(tv[0])] = th
+            po = dict(pt)
+            if scaled:
+                for e in eps_model:
+                    po[S(e)] = pt[S(e)] * th
+            if not U.same_value(U.value_at(tgt_new, pt), U.value_at(tgt_old, po), TOL):
+                mon.append({"cls": "ruv-time-varying-shape", "what": f"set_time_varying_error_model({kw}) on {base} at TIME={tval}: {tname} is "
+                            f"{U.value_at(tgt_new, pt)}, documented {U.value_at(tgt_old, po)} (every epsilon times theta before the cutoff)"})
+                break
+        return changed
+
+    if fn == "weighted":
+        d0 = dvs[0][0]
+        yo, yn = y_old[d0], y_new[d0]
+        e_old = [e for e in eps_model if S(e) in yo.free_symbols]
+        e_new = [e for e in m2.random_variables.epsilons.names if S(e) in yn.free_symbols]
+        for _ in range(2):
+            pt = U.gen_point(rng, [yn, yo], lo=1, hi=9)
+            f = U.value_at(yo.xreplace(zero), pt)
+            if f is None or len(e_new) != 1:
+                mon.append({"cls": "ruv-weighted-shape", "what": f"set_weighted_error_model on {base}: epsilons of {d0} are {e_new}"})
+                break
+            coef2 = sum(coef(yo, e, pt) ** 2 for e in e_old)
+            p1 = dict(pt)
+            for e_ in list(m2.random_variables.epsilons.names):
+                p1[S(e_)] = sympy.Integer(1 if e_ == e_new[0] else 0)
+            p0 = dict(p1)
+            p0[S(e_new[0])] = sympy.Integer(0)
+            w = U.value_at(yn, p1) - f
+            if not U.same_value(sympy.simplify(w**2), sympy.simplify(coef2), TOL) or not U.same_value(U.value_at(yn, p0), f, TOL):
+                mon.append({"cls": "ruv-weighted-shape", "what": f"set_weighted_error_model on {base}: W**2 = {w**2}, sum of squared epsilon "
+                            f"coefficients {coef2}"})
+                break
+        return changed
+    return changed
+
+
+def run_errordv(case, drv, rng, k, mon, tags):
+    """named error-model setters addressed to the second DV of a two-DV model"""
+    m = pm.set_direct_effect(pheno(case["ids"]), "linear")
+    setter, how = case["setter"], case["how"]
+    dvarg = 2 if how == "dvid" else "Y_2"
+    tags += [f"errordv:{setter}", f"dv:{how}"]
+    fn = {"additive": pm.set_additive_error_model, "proportional": pm.set_proportional_error_model,
+          "combined": pm.set_combined_error_model}[setter]
+    kw = {"dv": dvarg}
+    if setter == "proportional":
+        kw["zero_protection"] = case["zp"]
+    y_old = {d: full(m, d, "after") for d in ("Y", "Y_2")}
+    eps_old = list(m.random_variables.epsilons.names)
+    f_old = y_old["Y_2"].xreplace({S(e): sympy.Integer(0) for e in eps_old})
+    try:
+        m2 = fn(m, **kw)
+    except Exception as e:
+        cls = "error-internal-error"
+        if setter == "combined":
+            cls = "error-combined-dv-not-first-internal-error"
+        mon.append({"cls": cls, "what": f"set_{setter}_error_model({kw}) on the two-DV model raised {type(e).__name__}: " + str(e).split(chr(10))[0]})
+        return False
+    check_equal(mon, "error-other-dv-changed", f"Y after set_{setter}_error_model({kw}) vs before", full(m2, "Y", "after"), y_old["Y"], rng, npoints=2)
+    y_new = full(m2, "Y_2", "after")
+    eps_new = [n for n in m2.random_variables.epsilons.names if S(n) in y_new.free_symbols]
+    already = setter == "proportional"     # Y_2 = E + E*eps is proportional already
+    want_n = 2 if setter == "combined" else 1
+    ok = len(eps_new) == want_n
+    for _ in range(3 if ok else 0):
+        pt = U.gen_point(rng, [y_new, f_old], lo=1, hi=9)
+        for e in eps_new:
+            pt[S(e)] = Rational(rng.choice([-5, -2, 1, 3]), rng.randint(2, 7))
+        f, vy = U.value_at(f_old, pt), U.value_at(y_new, pt)
+        if f is None or f == 0:
+            continue
+        ev = [pt[S(e)] for e in eps_new]
+        cands = [f + ev[0]] if setter == "additive" else [f + f * ev[0]] if setter == "proportional" else \
+            [f + f * ev[0] + ev[1], f + f * ev[1] + ev[0]]
+        if not any(U.same_value(vy, c, TOL) for c in cands):
+            ok = False
+            break
+    if not ok:
+        mon.append({"cls": f"error-{setter}-shape", "what": f"set_{setter}_error_model({kw}): Y_2 = {y_new} is not the documented {setter} "
+                    f"function of f = {f_old}"})
+    return not already
+
+
 def run_allometry(case, drv, rng, k, mon, tags):
     m = pheno(case["ids"])
     var, ref, params = case["var"], case["ref"], case["params"]
@@ -876,7 +1254,7 @@ def run_transit(case, drv, rng, k, mon, tags):
     return changed
 
 
-RUNNERS = {"coveff": run_coveff, "iiv": run_iiv, "iov": run_iov, "etatrans": run_etatrans, "error": run_error,
+RUNNERS = {"errordv": run_errordv, "ruvmod": run_ruvmod, "coveff": run_coveff, "iiv": run_iiv, "iov": run_iov, "etatrans": run_etatrans, "error": run_error,
            "allometry": run_allometry, "transit": run_transit}
 
 
